@@ -618,9 +618,9 @@ func ioLinesIter(L *LState) int {
 
 func ioLines(L *LState) int {
 	if L.GetTop() == 0 {
-		L.Push(L.Get(UpvalueIndex(2)))
-		L.Push(fileDefIn(L))
-		return 2
+		// like file:lines() on the default input: the iterator holds the file and does not close it
+		L.Push(L.NewClosure(fileLinesIter, L.Get(UpvalueIndex(1)), fileDefIn(L)))
+		return 1
 	}
 
 	path := L.CheckString(1)
